@@ -445,7 +445,7 @@ func newPrinter() (r *pp)
   ensures inv(r.buf)
 
 func (p *pp) free()
-  requires [C02,C05,C06,C12] p.override == 0 && p.buf.gctx == 0
+  requires [C02,C05,C06,C09,C12] p.override == 0 && p.buf.gctx == 0
   requires WP(p.fmt)
   assert [C12] PoolInv(p) && WP(p.fmt) before "ppFree.Put(p)"
 
